@@ -1,6 +1,6 @@
 From Coq Require Extraction.
 From Coq Require Import ExtrOcamlBasic.
-From NV Require Import Base.Witness Base.Percent Text.TextBase Vcf.Values Vcf.Span Vcf.Record Vcf.Line Vcf.Header Vcf.LazyRec Vcf.File Vcf.FileStop Vcf.EagerLoop.
+From NV Require Import Base.Witness Base.Percent Text.TextBase Vcf.Values Vcf.Span Vcf.Record Vcf.Line Vcf.Header Vcf.LazyRec Vcf.File Vcf.FileStop Vcf.EagerLoop Vcf.LazyLoop.
 Extraction "model.ml" nv_types_witness write_info_field parse_info_field write_sample
   parse_sample_eager parse_sample_lazy variant_end variant_span reread
-  write_line read_eager read_eager_into read_lazy read_lazy_text read_eager_text rec_end rec_span frame write_header parse_header read_header  lazy_records_std lf_obs write_file read_file_eager_std read_file_lazy_std read_file_eager_cur_std read_file_lazy_cur_std read_header_chk_cur header_stops_at_chrom_line hctx_of_header parse_header_chk read_header_chk eager_call_list_std eager_line lines_of NV.Fasta.Fastq.utf8_valid.
+  write_line read_eager read_eager_into read_lazy read_lazy_text read_eager_text rec_end rec_span frame write_header parse_header read_header  lazy_records_std lf_obs write_file read_file_eager_std read_file_lazy_std read_file_eager_cur_std read_file_lazy_cur_std read_header_chk_cur header_stops_at_chrom_line hctx_of_header parse_header_chk read_header_chk eager_call_list_std lazy_call_list_std eager_line lines_of NV.Fasta.Fastq.utf8_valid.
